@@ -20,7 +20,7 @@ import outleap
 from hippolyzer.lib.base.datatypes import UUID
 from hippolyzer.lib.base.helpers import get_mtime
 from hippolyzer.lib.base.message.message import Message
-from hippolyzer.lib.base.network.transport import UDPPacket
+from hippolyzer.lib.base.network.transport import Direction, UDPPacket
 from hippolyzer.lib.client.rlv import RLVParser
 from hippolyzer.lib.proxy import addon_ctx
 from hippolyzer.lib.proxy.task_scheduler import TaskLifeScope, TaskScheduler
@@ -443,7 +443,8 @@ class AddonManager:
     @classmethod
     def handle_lludp_message(cls, session: Session, region: ProxiedRegion, message: Message):
         cls._reload_addons()
-        if message.name == "ChatFromViewer" and "ChatData" in message:
+        # Commands are something the user types, a simulator sending us a ChatFromViewer isn't one.
+        if message.name == "ChatFromViewer" and message.direction == Direction.OUT and "ChatData" in message:
             if message["ChatData"]["Channel"] == cls.COMMAND_CHANNEL:
                 # An earlier handler may have sent or dropped it already
                 if not message.finalized:
